@@ -18,7 +18,7 @@ import (
 	v "github.com/sboehler/knut/lib/zzverif"
 )
 
-var zzAccounts = []string{"Assets:A", "Assets:B:C", "Liabilities:L", "Equity:Equity", "Equity:E", "Income:I", "Expenses:X", "Expenses:Y:Z", "Assets:B", "Expenses:Y"}
+var zzAccounts = []string{"Assets:A", "Assets:B:C", "Liabilities:L", "Equity:Equity", "Equity:E", "Income:I", "Expenses:X", "Expenses:Y:Z", "Assets:B", "Expenses:Y", "Assets:AssetsPool"}
 var zzComms = []string{"V", "C1", "C2"}
 var zzDays = []string{"2020-01-30", "2020-01-31", "2020-02-01", "2020-12-31", "2021-01-01"}
 
@@ -33,6 +33,7 @@ const (
 	aYZ
 	aB
 	aY
+	aPool
 )
 
 // booking: on day, credit account -> debit account, commodity, quantity slot
@@ -62,6 +63,8 @@ var zzShapes = []zzShape{
 	8: {bk: []zzBk{{0, aEq, aX, 1, 0}, {1, aX, aA, 1, 1}, {3, aEq, aA, 0, -3}}, pr: []zzPr{{0, 1, 0, 0}, {1, 1, 0, 1}}},
 	// accounts that are booked directly and also have booked sub-accounts
 	9: {bk: []zzBk{{0, aEq, aB, 0, 0}, {1, aB, aBC, 0, 1}, {1, aI, aY, 1, 2}, {2, aY, aYZ, 1, -3}}, pr: []zzPr{{0, 1, 0, 0}}},
+	// an account whose later segment contains its own type name (for --remap)
+	10: {bk: []zzBk{{0, aEq, aPool, 0, 0}, {1, aPool, aL, 0, 1}, {2, aPool, aX, 0, -3}}},
 }
 
 type zzInputs struct {
@@ -220,6 +223,10 @@ func zzSetFlags(r *balanceRunner) {
 		from, to = "2019-01-01", "2020-02-01"
 	case 3:
 		from, to = "2020-02-02", "2020-12-30" // days without any directive
+	case 4:
+		from, to = "", "2020-01-01" // ends before the first transaction: empty window
+	case 5:
+		from, to = "2020-02-01", "2020-01-30" // inverted
 	}
 	r.Multiperiod.ZZSet(from, to, v.Param("last"), date.Interval(iv), iv != 0)
 	r.diff = v.Param("diff") == 1
